@@ -127,6 +127,14 @@ func (a Action) Invoke(c Context) InvokedAction {
 		result.action.meta.Merge(a.meta)
 		return result
 	}
+
+	// modifiers work in place on the invoked values and messages: hand out a copy
+	if a.rawValues != nil {
+		rawValues := make(common.RawValues, len(a.rawValues))
+		copy(rawValues, a.rawValues)
+		a.rawValues = rawValues
+	}
+	a.meta.Messages = a.meta.Messages.Clone()
 	return InvokedAction{a}
 }
 
